@@ -130,3 +130,43 @@ def block_dense_contract():
 
 def contracts():
     return [uniqueness_contract(), iso_dense_contract(), block_dense_contract()]
+
+
+# ---- scale equivariance of the specification (C04, C07) ------------------------------------------------
+
+
+def scaled_pair(Phi, Q, m, P, H, b, W, c):
+    """EKF closed form (damp = 0) at base scale 1 and at base scale c (P, Q scaled by c^2, W by 1/c^2)."""
+    k = H.shape[0]
+    one = ekf_closed_form(Phi, Q, m, P, H, b, jnp.zeros((k, k)), W)
+    scaled = ekf_closed_form(Phi, c * c * Q, m, c * c * P, H, b, jnp.zeros((k, k)), W / (c * c))
+    # local error quantity of C07 (squared, up to the common dt^n/n! factor): sigma_hat^2 * diag(S0), S0 = H Q H^T
+    r = H @ (Phi @ m) + b
+    S0 = H @ Q @ H.T
+    err2_one = (r @ W @ r) / k * jnp.diagonal(S0)
+    err2_scaled = (r @ (W / (c * c)) @ r) / k * jnp.diagonal(c * c * S0)
+    return one, scaled, err2_one, err2_scaled
+
+
+def equivariance_contract():
+    def requires(Phi, Q, m, P, H, b, W, c):
+        S = H @ (Phi @ P @ Phi.T + Q) @ H.T
+        return [eq("W_inverts_innovation_covariance", S @ W, jnp.eye(H.shape[0]))]
+
+    def ensures(res, Phi, Q, m, P, H, b, W, c):
+        (m1, P1, S1, t1), (m2, P2, S2, t2), e1, e2 = res
+        return [eq("scaled_inverse_inverts_scaled_innovation", S2 @ (W / (c * c)), jnp.eye(H.shape[0])),
+                eq("posterior_mean_unchanged", m2, m1), eq("uncalibrated_cov_scales_with_c^2", P2, c * c * P1),
+                eq("mle_term_divides_by_c", t2 * c * c, t1), eq("calibrated_cov_unchanged", t2 * P2, t1 * P1),
+                eq("local_error_quantity_unchanged", e2, e1)]
+
+    def instances(tier):
+        out = []
+        for n, k in [(2, 1)] + ([(3, 1), (2, 2)] if tier == "thorough" else []):
+            def make(rng, n=n, k=k):
+                return tuple(jnp.asarray(x) for x in (rng.normal(size=(n, n)), rng.normal(size=(n, n)), rng.normal(size=(n,)), rng.normal(size=(n, n)), rng.normal(size=(k, n)), rng.normal(size=(k,)), rng.normal(size=(k, k)), rng.uniform(0.5, 2.0))), {}
+            out.append(Instance(f"n={n},k={k}", make, positive=lambda a, kw: [a[7]]))
+        return out
+
+    return Contract(name="lemma:scale_equivariance_of_the_ekf_specification", module=MOD, qualname="scaled_pair", requires=requires, ensures=ensures, instances=instances,
+                    doc="multiplying the prior's base scale by c (P, Q -> c^2 P, c^2 Q; damp = 0) leaves the posterior mean, the calibrated covariance and the local error quantity unchanged, multiplies the uncalibrated covariance by c^2 and divides the quasi-MLE term by c")
